@@ -10,11 +10,17 @@
 //     <= 4 (thorough) positions; the bech32m-checksummed sibling of every encoded string: all rejected;
 //     thorough: all 32^6 checksums of one base string (budget-capped);
 //  E. every 5-bit symbol sequence of length <= 3 (4) with a correct checksum: accepted <=> padding rule holds;
-//  F. crypto.AddressFromBech32: accepts exactly 20-byte payloads under the address prefix.
+//  F. crypto.AddressFromBech32: accepts exactly 20-byte payloads under the address prefix;
+//  G. history independence (history.go): the single-edit families of address, public-key and generic strings are
+//     decoded cold, immediately after their canonical valid string and after other valid strings, through every public
+//     decoding entry point (sequentially, in worker subprocesses); in this process every base string is decoded first
+//     (and again last) in its family, and every valid encoding is decoded a second time in reverse order.
 package main
 
 import (
 	"bytes"
+	"encoding/json"
+	"flag"
 	"fmt"
 	"sort"
 	"strings"
@@ -247,8 +253,15 @@ var replChars = func() []byte {
 }()
 
 func main() {
+	worker := flag.String("worker", "", "internal: history worker kind")
 	r = vk.New("exploration")
 	r.SetBudget(80*time.Second, 20*time.Minute)
+	if *worker != "" {
+		b, _ := json.Marshal(runHistoryWorker(*worker))
+		fmt.Println("RESULT " + string(b))
+		return
+	}
+	joinHistory := startHistoryWorkers()
 	prefixes := []string{"g", "gpub", "a", "1", "g1x", "x-_~!", "0", "g9", strings.Repeat("a", 83)}
 
 	// payload universe
@@ -274,6 +287,7 @@ func main() {
 	// ---- A. round trip ---------------------------------------------------------------------------------------
 	var amu sync.Mutex
 	var rt int64
+	encs := make([]string, len(prefixes)*len(payloads))
 	r.ParFor(len(prefixes)*len(payloads), func(i int) {
 		p, d := prefixes[i/len(payloads)], payloads[i%len(payloads)]
 		var enc, hrp string
@@ -298,11 +312,34 @@ func main() {
 		agree("bech32m-checksum", refEncode5(p, to5(d), 0x2bc830a3), true, nil)
 		r.EvalN(2)
 		r.Distinct("rt:" + enc)
+		encs[i] = enc
 		amu.Lock()
 		rt++
 		amu.Unlock()
 	})
 	r.OutcomeN("roundtrip_pairs", rt)
+	// second decoding of every valid encoding, in the reverse order (the result may not depend on what was decoded before)
+	var again int64
+	r.ParFor(len(encs), func(j int) {
+		i := len(encs) - 1 - j
+		if encs[i] == "" {
+			return
+		}
+		p, d := prefixes[i/len(payloads)], payloads[i%len(payloads)]
+		var hrp string
+		var got []byte
+		var err error
+		rec := vk.Catch(func() { hrp, got, err = bech32.DecodeAndConvert(encs[i]) })
+		r.Eval()
+		if rec != nil || err != nil || hrp != p || !bytes.Equal(got, d) {
+			fail("history-dependent:bech32.DecodeAndConvert:valid-string-second-decode-differs(reverse order)", encs[i], fmt.Sprintf("panic=%v err=%v decoded to %s/%x, encoded from %s/%x", rec, err, hrp, got, p, d))
+			return
+		}
+		amu.Lock()
+		again++
+		amu.Unlock()
+	})
+	r.OutcomeN("valid_encodings_decoded_a_second_time_in_reverse_order", again)
 
 	// base strings for the mutation families
 	var bases []string
@@ -328,43 +365,38 @@ func main() {
 	r.ParFor(len(bases), func(i int) {
 		s := bases[i]
 		var t, o tally
-		b := []byte(s)
-		for pos := 0; pos < len(b); pos++ {
-			orig := b[pos]
-			for _, c := range replChars {
-				if c == orig {
-					continue
-				}
-				b[pos] = c
-				agree("single-substitution", string(b), true, &t)
-			}
-			b[pos] = orig
-		}
-		// ---- C. deletions, insertions, swaps, case flips: implementation <=> reference
-		for pos := 0; pos < len(s); pos++ {
-			agree("deletion", s[:pos]+s[pos+1:], false, &o)
-			if pos+1 < len(s) && s[pos] != s[pos+1] {
-				x := []byte(s)
-				x[pos], x[pos+1] = x[pos+1], x[pos]
-				agree("adjacent-swap", string(x), false, &o)
-			}
-			if c := s[pos]; (c >= 'a' && c <= 'z') || (c >= 'A' && c <= 'Z') {
-				x := []byte(s)
-				x[pos] ^= 0x20
-				// a single flipped letter makes the string mixed-case unless it is the only letter
-				agree("case-flip", string(x), false, &o)
+		// the canonical string first (and again last): every variant below is decoded after its valid string
+		warm := func(ctx string) {
+			agree("identity("+ctx+")", s, false, &o)
+			rh, rd, _ := refDecode(s)
+			h2, d2, err2 := bech32.DecodeAndConvert(s)
+			d3, err3 := crypto.GetFromBech32(s, rh)
+			r.EvalN(2)
+			if err2 != nil || err3 != nil || h2 != rh || !bytes.Equal(d2, rd) || !bytes.Equal(d3, rd) {
+				fail("history-dependent:valid-string-decoded-differently("+ctx+")", s, fmt.Sprintf("DecodeAndConvert: %q %x %v; GetFromBech32: %x %v; reference %q %x", h2, d2, err2, d3, err3, rh, rd))
 			}
 		}
-		if len(s) < 40 {
-			for pos := 0; pos <= len(s); pos++ {
-				for _, c := range replChars[:33] { // charset + '1'
-					agree("insertion", s[:pos]+string(c)+s[pos:], false, &o)
+		warm("before its variants")
+		warm("twice in a row")
+		forVariants(s, 40, func(class, v string, mustReject bool) {
+			if mustReject {
+				agree(class, v, true, &t)
+				return
+			}
+			agree(class, v, false, &o)
+			if class == "case-flip" || class == "upper" || class == "lower" {
+				// the spellings a normalising cache would confuse also go through the other two entry points
+				_, rd, rok := refDecode(v)
+				rh, _, _ := refDecode(s)
+				_, d2, err2 := bech32.DecodeAndConvert(v)
+				d3, err3 := crypto.GetFromBech32(v, rh)
+				r.EvalN(2)
+				if (err2 == nil) != rok || (err3 == nil) != rok || (rok && (!bytes.Equal(d2, rd) || !bytes.Equal(d3, rd))) {
+					fail("case-variant-after-canonical:DecodeAndConvert/GetFromBech32-disagree-with-reference:"+class, v, fmt.Sprintf("DecodeAndConvert: %x %v; GetFromBech32: %x %v; reference ok=%v %x", d2, err2, d3, err3, rok, rd))
 				}
 			}
-		}
-		agree("upper", strings.ToUpper(s), false, &o)
-		agree("lower", strings.ToLower(s), false, &o)
-		agree("identity", s, false, &o)
+		})
+		warm("after its variants")
 		r.Distinct("base:" + s)
 		sub.mu.Lock()
 		sub.acc += t.acc
@@ -541,6 +573,7 @@ func main() {
 		r.OutcomeN("all_checksums_rejected", full.rej)
 	}
 
+	histCov := joinHistory()
 	var names []string
 	for c := range fails {
 		names = append(names, c)
@@ -559,5 +592,5 @@ func main() {
 		"'every string' is bounded: all strings of length <= 3, all single edits of ~2,300 valid strings, checksum neighbourhoods, all short symbol sequences",
 	}
 	r.Finish("9 prefixes x (all payloads of length <= 2 + patterns) round trip; every single substitution (47 replacement chars) / deletion / insertion / adjacent swap / case flip of every base string; all strings of length <= 3; all <=3(4)-position checksum changes of 2(4) base strings; bech32m sibling of every encoding; all 5-bit symbol sequences of length <= 3(4); address length/prefix matrix; thorough: all 32^6 checksums of one string (budget-capped); distinct = distinct valid encodings and base strings",
-		true, map[string]any{"bases": len(bases), "prefixes": len(prefixes), "payloads": len(payloads), "all_32^6_checksums_of_one_string": map[bool]string{true: map[bool]string{true: "completed", false: "budget-capped"}[fullDone], false: "not run in quick"}[r.Thorough()]})
+		true, map[string]any{"bases": len(bases), "prefixes": len(prefixes), "payloads": len(payloads), "history_independence": histCov, "all_32^6_checksums_of_one_string": map[bool]string{true: map[bool]string{true: "completed", false: "budget-capped"}[fullDone], false: "not run in quick"}[r.Thorough()]})
 }
